@@ -37,14 +37,14 @@ def run(tier, seed):
     standard_front(chk, 'Props/C14.v', needs_items=('skin_zint', 'ins_zins', 'ins_half'),
                    extra_vo=('Model/History.v', 'Proofs/HistoryP.v', 'Corr/LoadDriver.v'))
     rng = random.Random(seed)
-    C08.run_dload(chk, rng, 16 if tier == 'quick' else 200)
+    C08.run_dload(chk, rng, 16 if tier == 'quick' else 800)
     q = tier == 'quick'
-    collect(chk, 'hist', 'hist', stage_lin.gen_cases(rng, 32 if q else 400),
+    collect(chk, 'hist', 'hist', stage_lin.gen_cases(rng, 32 if q else 1600),
             sample_fn=lambda x: dict(stage='hist', ops=x['ops'][:6], load_classes=x['kinds']))
-    collect(chk, 'hist.sweep', 'sweep', stage_lin.gen_cases(rng, 16 if q else 120),
+    collect(chk, 'hist.sweep', 'sweep', stage_lin.gen_cases(rng, 16 if q else 480),
             sample_fn=lambda x: dict(stage='sweep', steps=x['steps'], load_kinds=x['kinds']))
     pc = [dict(id=i, seed=rng.randrange(10 ** 9), spec=gen.gen_antenna(rng, family=rng.choice(['star', 'chain', 'loop']), tags=rng.choice(['none', 'gaps', 'perm'])))
-          for i in range(8 if q else 48)]
+          for i in range(8 if q else 192)]
     collect(chk, 'hist.procs', 'procs', pc, payload_extra=dict(repeats=4 if q else 8),
             sample_fn=lambda x: dict(stage='procs', objects=x['nobj'], rc=x['rc']))
     return chk.finish()
